@@ -251,6 +251,11 @@ func (vc *VC) dynamicCall(com *ssa.CallCommon, d *callDesc) []string {
 	}
 	vc.pre.declFun("fv_fn", "(Int) Int")
 	vc.pre.declFun("fv_recv", "(Int) Int")
+	if !vc.feasible() {
+		// the call site is unreachable
+		vc.cur = vc.define("R", "Bool", "false")
+		return vc.freshResults(d.sig, "fv")
+	}
 	base, baseCur := vc.st, vc.cur
 	var outs []branchOut
 	var guards []string
@@ -259,6 +264,9 @@ func (vc *VC) dynamicCall(com *ssa.CallCommon, d *callDesc) []string {
 		guards = append(guards, g)
 		vc.st = base.clone()
 		vc.cur = vc.define("R", "Bool", fmt.Sprintf("(and %s %s)", baseCur, g))
+		if !vc.feasible() {
+			continue // this target is impossible here
+		}
 		args := d.args
 		argTypes := d.argTypes
 		if c.bound {
@@ -281,6 +289,13 @@ func (vc *VC) dynamicCall(com *ssa.CallCommon, d *callDesc) []string {
 		}
 	}
 	vc.cur = vc.define("R", "Bool", fmt.Sprintf("(and %s %s)", baseCur, none))
+	if !vc.feasible() {
+		if len(outs) > 0 {
+			return vc.mergeBranches(outs, d.sig)
+		}
+		vc.cur = vc.define("R", "Bool", "false")
+		return vc.freshResults(d.sig, "fv")
+	}
 	if restricted {
 		// the contract restricts the targets: show that no other target is possible here
 		vc.oblige("fvtargets", "assert", fmt.Sprintf("function value called at %s denotes one of the declared targets", vc.pos()), "false", nil)
@@ -309,6 +324,9 @@ func (vc *VC) invokeCandidates(d *callDesc, impls []implTarget) []string {
 		guards = append(guards, g)
 		vc.st = base.clone()
 		vc.cur = vc.define("R", "Bool", fmt.Sprintf("(and %s %s)", baseCur, g))
+		if !vc.feasible() {
+			continue
+		}
 		rv := vc.define("dynrecv", vc.pre.sortOf(it.dyn), fmt.Sprintf("(%s %s)", un, d.recv))
 		vc.assumeRange(rv, it.dyn)
 		cur := TV{T: rv, Ty: it.dyn}
@@ -350,6 +368,9 @@ func (vc *VC) invokeCandidates(d *callDesc, impls []implTarget) []string {
 		none = "(not " + guards[0] + ")"
 	}
 	vc.cur = vc.define("R", "Bool", fmt.Sprintf("(and %s %s)", baseCur, none))
+	if !vc.feasible() && len(outs) > 0 {
+		return vc.mergeBranches(outs, d.sig)
+	}
 	vc.r().uncontracted[d.key+" (unknown dynamic type)"] = true
 	vc.havocAll()
 	outs = append(outs, branchOut{guard: none, cur: vc.cur, st: vc.st, res: vc.freshResults(d.sig, "im")})
@@ -378,6 +399,10 @@ func (vc *VC) inline(d *callDesc) ([]string, bool) {
 	}
 	if n > 400 || len(fn.Params) != len(d.args) {
 		return nil, false
+	}
+	if n > 40 && !vc.feasible() {
+		vc.cur = vc.define("R", "Bool", "false")
+		return vc.freshResults(d.sig, "nr"), true
 	}
 	ch := &VC{P: vc.P, fn: fn, key: funcKey(fn), pre: vc.pre, parent: vc, depth: vc.depth + 1,
 		vals: map[ssa.Value]string{}, addrs: map[ssa.Value]*Addr{}, tuples: map[ssa.Value][]string{},
@@ -409,6 +434,11 @@ func (vc *VC) inline(d *callDesc) ([]string, bool) {
 			res = append(res, tv.T)
 		}
 		outs = append(outs, branchOut{guard: r.cur, cur: r.cur, st: r.st, res: res})
+	}
+	if vc.splitOK && len(outs) > 1 && len(outs) <= 12 {
+		// tail position: let the caller continue once per return path
+		vc.pending = outs
+		return outs[0].res, true
 	}
 	return vc.mergeBranches(outs, d.sig), true
 }
